@@ -95,7 +95,8 @@ class DefUse:
                 if 'assign' in st:
                     pl = st['assign']
                     if pl['proj']:
-                        self.partial.add(pl['local'])
+                        if pl['proj'][0] != 'deref':
+                            self.partial.add(pl['local'])
                     else:
                         self.defs.setdefault(pl['local'], []).append(('assign', st['rv'], st.get('span')))
                 elif 'setdiscr' in st:
@@ -104,7 +105,8 @@ class DefUse:
             if isinstance(t, dict) and 'call' in t:
                 d = t['dest']
                 if d['proj']:
-                    self.partial.add(d['local'])
+                    if d['proj'][0] != 'deref':
+                        self.partial.add(d['local'])
                 else:
                     self.defs.setdefault(d['local'], []).append(('call', t, b.get('tspan')))
 
@@ -170,10 +172,11 @@ def origin_local(body, local, du, depth, maxdepth=24):
     rv = d[1]
     if 'use' in rv:
         return origin(body, rv['use'], du, depth + 1, maxdepth)
-    if 'ref' in rv:
-        return ('ref', origin_place(body, rv['place'], du, depth + 1, maxdepth))
-    if 'rawptr' in rv:
-        return ('ref', origin_place(body, rv['place'], du, depth + 1, maxdepth))
+    if 'ref' in rv or 'rawptr' in rv:
+        inner = origin_place(body, rv['place'], du, depth + 1, maxdepth)
+        if inner[0] == 'deref':
+            return inner[1]          # reborrow &*x is x
+        return ('ref', inner)
     if 'agg' in rv:
         return ('agg', rv['agg'], [origin(body, o, du, depth + 1, maxdepth) for o in rv['ops']])
     if 'binop' in rv:
